@@ -80,6 +80,9 @@ def run_case(ctx, rng, idx):
     if idx == 2 or (ctx.tier == "thorough" and idx % 5000 == 11):
         many_same_shape_case(ctx, rng, idx)
         return
+    if idx == 3 or (ctx.tier == "thorough" and idx % 5000 == 13):
+        hub_case(ctx, rng, idx)
+        return
     if idx == 1 or (ctx.tier == "thorough" and idx % 700 == 9):
         from ..gen import big_directed
 
@@ -151,6 +154,44 @@ def many_same_shape_case(ctx, rng, idx):
     r = call(dm.exact_reciprocity, h, 2)
     ctx.check("C12:reciprocity", not isinstance(r, _Raised) and r.get(2) == 1.0, "C12:exact_reciprocity:value", lambda: wit(r))
     ctx.distinct_add(("many-same-shape", n))
+
+
+def hub_case(ctx, rng, idx):
+    """One node is a source of ~300 and a target of ~300 hyperedges whose sizes (2, 3, 4) are interleaved in insertion order;
+    a few dozen of them are handed to add_edge a second time (a no-op for an unweighted hypergraph).  Degrees with and
+    without filters against counts over the input list."""
+    import hypergraphx as hgx
+    from hypergraphx.measures import directed as dm
+
+    ctx.event("hub-in-600-hyperedges")
+    hub, leaves = 0, list(range(1, 400))
+    edges = []
+    for i in range(300):
+        k = 1 + i % 3
+        others = rng.sample(leaves, k)
+        edges.append(((hub,), tuple(sorted(others))) if k == 1 or i % 2 else ((hub, others[0]), tuple(sorted(others[1:]))))
+        others = rng.sample(leaves, k)
+        edges.append((tuple(sorted(others)), (hub,)))
+    edges = list(dict.fromkeys(edges))
+    h = hgx.DirectedHypergraph()
+    for e in edges:
+        h.add_edge(e)
+    for e in rng.sample(edges, 40):  # inserted again: nothing changes
+        h.add_edge(e)
+    listed = set(map(tuple, h.get_edges()))
+    ctx.check("C12:degree", listed == set(edges) and len(h.get_edges()) == len(edges), "C12:hub:listing-differs-from-the-inserted-hyperedges", {"listed": len(listed), "inserted": len(edges)})
+    probe = [hub] + rng.sample(leaves, 5)
+    for kw in ({}, {"size": 2}, {"size": 3}, {"size": 4}, {"order": 1}, {"order": 2}, {"size": 5}):
+        size = kw.get("size", kw.get("order", -2) + 1 if "order" in kw else None)
+        sel = [e for e in edges if size is None or len(e[0]) + len(e[1]) == size]
+        for n in probe:
+            ei, eo = sum(1 for e in sel if n in e[0]), sum(1 for e in sel if n in e[1])
+            gi, go = call(dm.in_degree, h, n, **kw), call(dm.out_degree, h, n, **kw)
+            ctx.check("C12:degree", gi == ei, "C12:in_degree", lambda: {"hub-case": True, "node": n, "filter": kw, "got": repr(gi), "expected": ei})
+            ctx.check("C12:degree", go == eo, "C12:out_degree", lambda: {"hub-case": True, "node": n, "filter": kw, "got": repr(go), "expected": eo})
+        gs = call(dm.in_degree_sequence, h, **kw)
+        ctx.check("C12:degree", not isinstance(gs, _Raised) and gs.get(hub) == sum(1 for e in sel if hub in e[0]), "C12:in_degree_sequence", lambda: {"hub-case": True, "filter": kw})
+    ctx.distinct_add(("hub", len(edges)))
 
 
 def evaluate(ctx, rng, idx, h):
